@@ -269,7 +269,7 @@ def part_b(ctx, ncases):
         for j in range(R.randint(0, 3)):
             m = rand_section(R, lang, allow_default=False)
             fmaps.append(m)
-            p = d / ("f%d_%d.yaml" % (i, j))
+            p = d / ("%s%d_f%d_%d.yaml" % (R.choice("zmacqx"), R.randint(0, 9), i, j))
             doc = {sect: m}
             if R.random() < 0.2:  # an unrelated section must not disturb the target's
                 other = R.choice([l for l in OPTION_DOMAIN if l != lang])
@@ -381,7 +381,7 @@ def part_d(ctx, nruns):
         for j in range(R.randint(0, 3)):
             m = rand_section(R, lang, allow_default=False)
             fmaps.append(m)
-            p = d / ("r%d_%d.yaml" % (i, j))
+            p = d / ("%s%d_r%d_%d.yaml" % (R.choice("zmacqx"), R.randint(0, 9), i, j))   # order given != sorted order
             p.write_text(yaml.safe_dump({sect: m}))
             cfg_files.append(str(p))
         if cfg_files:   # nargs="*": all files follow ONE --configuration flag (a repeated flag replaces, argparse semantics)
